@@ -5,4 +5,4 @@ Extraction Language OCaml.
 Extraction "../ocaml/tls/gen.ml"
   hostname port parse_u16 build ci_hostname ci_get_port ci_addrs ci_take_addrs
   resolve tcp_connect connect tls_connect connect_tls
-  init step run run_from.
+  init step run run_from shift_calls native_step native_run.
